@@ -187,6 +187,9 @@ func (x *Ctx) affixFor(fns []string, streams []int, n int) {
 		for _, fn := range fns {
 			x.run(fn, s, p, 0)
 		}
+		if i%4 == 0 {
+			x.internalPrefix(s, p)
+		}
 	}
 }
 
